@@ -25,6 +25,20 @@ let parse_arg s =
 
 let parse_pos s = match s with "f" -> PFront | "b" -> PBack | _ -> PAt (n s)
 
+(* every usize: a decimal string up to 2^64-1 -> the extracted binary N (long division of the digit string by 2) *)
+let n_of_dec (s : string) : Model.n =
+  let digits = ref (List.init (String.length s) (fun i -> Char.code s.[i] - 48)) in
+  List.iter (fun d -> if d < 0 || d > 9 then failwith ("bad number: " ^ s)) !digits;
+  let bits = ref [] in
+  while List.exists (fun d -> d <> 0) !digits do
+    let rem = ref 0 in
+    digits := List.map (fun d -> let v = !rem * 10 + d in rem := v land 1; v lsr 1) !digits;
+    bits := !rem :: !bits
+  done;
+  match !bits with
+  | [] -> N0
+  | _ :: rest -> Npos (List.fold_left (fun p b -> if b = 1 then XI p else XO p) XH rest)
+
 let parse_op toks = match toks with
   | ["new"; x; k] -> ONew (n x, kind_of_string k)
   | ["del"; x] -> ODel (n x)
@@ -50,6 +64,10 @@ let parse_op toks = match toks with
   | ["inshint"; x; p; ka; va] -> OInsHint (n x, parse_pos p, parse_arg ka, parse_arg va)
   | ["sort"; x] -> OSort (n x)
   | ["instie"; x; p; ka; va; j] -> OInsTie (n x, parse_pos p, parse_arg ka, parse_arg va, n j)
+  (* Array::remove(index), size <= index: the plain line is the outcome of the code as it is (nothing removed);
+     the check appends the element the implementation's run took out, if it took one out *)
+  | ["remout"; x; i] -> ORemOut (n x, n_of_dec i, None)
+  | ["remout"; x; i; j] -> ORemOut (n x, n_of_dec i, Some (n j))
   | ["insw"; x; "f"; ka; va] -> OInsVia (n x, true, parse_arg ka, parse_arg va)
   | ["insw"; x; "b"; ka; va] -> OInsVia (n x, false, parse_arg ka, parse_arg va)
   | _ -> failwith ("bad op: " ^ String.concat " " toks)
@@ -120,7 +138,8 @@ let () =
               | Ok (did, st') ->
                   let tok = res_token did o (fun () -> match o with OFind (x, ka) -> model_found st x ka | _ -> None) in
                   let tie = match o with OInsTie (_, _, _, _, j) when did -> Printf.sprintf " tie=%d" (int_of_nat j) | _ -> "" in
-                  emit (model_line tok st st' ^ tie); Running st'
+                  let out = match o with ORemOut (_, _, Some j) when did -> Printf.sprintf " out=%d" (int_of_nat j) | _ -> "" in
+                  emit (model_line tok st st' ^ tie ^ out); Running st'
               | Err e -> emit (err_str e); Dead))
       (fun ms ->
          match ms with
